@@ -354,6 +354,7 @@ func (e *engine) sectionFull(pool *kslib.Pool, seed uint64) {
 				src.lays, src.msgs = nil, 2
 				if slow {
 					src.lays, src.msgs = layouts()[:2], 1
+					src.minimal = class == "signer" && strings.Contains(pk.Name, "128s")
 				}
 			}
 			e.o.Count("full-prim:" + pk.Type)
